@@ -81,6 +81,12 @@ func restart(run *vh.Run, h appdrv.History, cut int, file string, wantHeight int
 		return
 	}
 	a := &sa
+	// the restarted node keeps its own save schedule: it goes on saving after every block, or
+	// (every other restart) never saves again - when a node writes its file is its own business
+	// and must not show in what it answers (seeded C13j pruned old DKG instances while saving)
+	if cut%2 == 1 {
+		a.Gobpath = ""
+	}
 	info := a.Info(abcitypes.RequestInfo{}).LastBlockHeight
 	if info != wantHeight {
 		bad("C13:info-height", fmt.Sprintf("restarted node reports height %d, last executed block before the save was %d", info, wantHeight), nil)
@@ -112,6 +118,19 @@ func restart(run *vh.Run, h appdrv.History, cut int, file string, wantHeight int
 func doHistory(run *vh.Run, dir string, h appdrv.History, cuts int) {
 	base, a, saves, heights := uninterrupted(dir, h)
 	final := appdrv.StateString(a, nil)
+	// a node that never writes a state file answers the same calls the same way
+	if plain, pa, err := appdrv.RunHistory(h); err == nil {
+		for i := range plain {
+			if i < len(base) && plain[i].Key() != base[i].Key() {
+				run.Violate(vh.Violation{Key: "C13:saving-changes-behaviour", What: fmt.Sprintf("a node that saves after every block and one that never saves answer call %d (%s %s) differently", i, h.Calls[i].Kind, h.Calls[i].Note),
+					Case: restartCase{History: h, Cut: 0}, Observed: []appdrv.Resp{base[i], plain[i]}})
+				break
+			}
+		}
+		if appdrv.StateString(pa, nil) != final {
+			run.Violate(vh.Violation{Key: "C13:saving-changes-state", What: "a node that saves after every block and one that never saves hold different state after the same calls", Case: restartCase{History: h, Cut: 0}})
+		}
+	}
 	var points []int
 	for k := range saves {
 		points = append(points, k)
@@ -248,7 +267,10 @@ func main() {
 	for i := 0; i < n; i++ {
 		g := &appdrv.Gen{U: u, R: run.RNG.Fork(), Weird: i%7 == 0}
 		var h appdrv.History
-		if i%5 == 4 {
+		if i%10 == 9 {
+			h, _, _ = g.ManyEonsHistory(4 + run.RNG.Intn(4))
+			run.Dist["history:many-eons"]++
+		} else if i%5 == 4 {
 			h, _, _ = g.DKGHistory(5+run.RNG.Intn(6), 8)
 		} else if i%2 == 1 {
 			h, _, _ = g.TransitionHistory(3+run.RNG.Intn(7), 8)
